@@ -17,7 +17,19 @@ pub fn lists() -> Vec<Vec<Det>> {
         vec![r(), p2().rot(-0.3).conf(0.6)],                      // rotated (positive and negative angle) + lower confidence
         vec![p().conf(0.03), q()],                                // below minimal confidence
         vec![p1().cid(7).feat(&fa(), 0.9), q().cid(-3), s().cid(11).feat(&fa1(), 0.2)],
+        // 9-10: two tracks with looks a and y (0.36 apart); then a detection with look a, one whose look is close to
+        // both (it loses the first track and has the second as its second choice) and a feature-less one on top of
+        // the second track
+        vec![p().feat(&fa(), 0.9), q().feat(&look2(0.8, 0.3), 0.9)],
+        vec![p1().feat(&fa(), 0.9), p().shift(-1.0, 0.5).feat(&look2(0.95, 0.1), 0.9), q().shift(1.0, 0.0)],
     ]
+}
+
+fn look2(x: f32, y: f32) -> Vec<f32> {
+    let mut v = vec![0.0f32; 16];
+    v[0] = x;
+    v[1] = y;
+    v
 }
 
 pub struct ContractMonitor {
@@ -234,7 +246,7 @@ pub fn configs(tier: Tier) -> Vec<TrkCfg> {
 pub fn run(tier: Tier) -> Report {
     let rep = Report::new("C01", tier);
     let ls = lists();
-    rep.set_rule("every history of depth <= D (quick 3, thorough 4) over {predict(scene in {0,7}, one of 9 detection lists incl. empty, exact duplicates, nested, rotated, low confidence, custom ids, features), skip(scene,1)} on a fresh tracker, for Sort / BatchSort / VisualSort / BatchVisualSort x IoU(0.3) / Mahalanobis x shards 1,2 x (history, max_idle) variants; per call: one record per detection in order echoing box / custom id / scene, scene epoch, ids distinct within the call, length 1 exactly for never-issued ids and previous+1 otherwise, stored track agrees with the record. Schedule part (batch trackers, 2 voting threads): the same contract on every complete run of 2-3 multi-scene batches under every interleaving of voting threads, store workers, submitter and consumer threads within a deviation bound (every synchronisation operation a decision point for the two-scene batch that starts two tracks at once; named points for the pipelined consumer-thread runs); a panic, deadlock or step-cap hit is a violation. Non-trivial = history with at least one call of >= 2 detections.");
+    rep.set_rule("every history of depth <= D (quick 3, thorough 4) over {predict(scene in {0,7}, one of 11 detection lists incl. empty, exact duplicates, nested, rotated, low confidence, custom ids, features, an appearance contest with a second choice), skip(scene,1)} on a fresh tracker, for Sort / BatchSort / VisualSort / BatchVisualSort x IoU(0.3) / Mahalanobis x shards 1,2 x (history, max_idle) variants; per call: one record per detection in order echoing box / custom id / scene, scene epoch, ids distinct within the call, length 1 exactly for never-issued ids and previous+1 otherwise, stored track agrees with the record. Schedule part (batch trackers, 2 voting threads): the same contract on every complete run of 2-3 multi-scene batches under every interleaving of voting threads, store workers, submitter and consumer threads within a deviation bound (every synchronisation operation a decision point for the two-scene batch that starts two tracks at once; named points for the pipelined consumer-thread runs); a panic, deadlock or step-cap hit is a violation. Non-trivial = history with at least one call of >= 2 detections.");
     rep.assume("history part: sequential use under the default schedule; schedule part: bounded departures from the default schedule (see schedule_part)");
     let depth = tier.pick(3usize, 4usize);
     let mut total_h = 0u64;
